@@ -20,14 +20,22 @@
    the content), so the same content at the same height on two forks with different ancestors
    has different ids, and re-applying the very same chain reproduces the ids.
 
+   The process-local running event filter (core.RunningEventFilter, lazily initialised) and the
+   Restart action are modelled as well: FilterCoversChain, RRestartIsNoOp.
+
    Properties: IdxCanon - `idx` is a function of the current chain (so Store ; Revert is the
    identity and forks converge, as for Canon); IdxSound - every lookup answers from the current
    chain only (nothing of a reverted block can be found, everything of a retained block can). *)
 EXTENDS StateHistory
 
-VARIABLE idx
-rvars == <<shvars, idx>>
-rview == <<shview, idx>>
+CONSTANT FilterReorgInBatch   \* TRUE = the code: RevertHead rolls the running event filter back INSIDE
+                              \* the revert's batch closure (OnReorgWithBatch), i.e. before the commit
+
+VARIABLES idx,
+          hot, fcov, fnext    \* the in-memory core.RunningEventFilter of this process: initialised yet?,
+                              \* blocks whose bloom bits it holds, next block it expects
+rvars == <<shvars, idx, hot, fcov, fnext>>
+rview == <<shview, idx, hot, fcov, fnext>>
 
 NoLoc == <<-1, -1>>
 InitI == [height |-> -1,
@@ -71,15 +79,40 @@ RevI(I, n) ==
    su  |-> {h \in I.su : h.n # n},
    com |-> I.com \ {n}]
 
-RInit == Init /\ idx = InitI
+(* core.RunningEventFilter is created lazily by blockchain.New: its first use (Store, RevertHead,
+   an event query) runs InitializeRunningEventFilter, which reads the COMMITTED chain height h and
+   returns a filter caught up to h (from the persisted snapshot or by a rebuild): blocks 0..h,
+   next = h + 1.  All chains here stay inside one 8192-block window. *)
+FInit(h) == [cov |-> 0..h, next |-> h + 1]
+FCur(h) == IF hot THEN [cov |-> fcov, next |-> fnext] ELSE FInit(h)
 
+RInit == Init /\ idx = InitI /\ hot = FALSE /\ fcov = {} /\ fnext = 0
+
+(* Store of block n: InsertWithBatch inside the closure - a lazy filter initialises from the
+   committed height n - 1 and then takes block n.  (The reads that follow every step keep it hot.) *)
 RApply(d, ver, txs) ==
   /\ ApplyBlock(d, ver, txs)
   /\ idx' = UpdI(idx, chain', NBlocks)
+  /\ LET F == FCur(NBlocks - 1) IN fcov' = F.cov \cup {NBlocks} /\ fnext' = NBlocks + 1
+  /\ hot' = TRUE
 
+(* RevertHead of block H: onReorg clears block next - 1 and steps back.  Inside the batch closure a
+   lazy filter still initialises from height H; after the commit it would see H - 1 and clear a
+   block that is still canonical. *)
 RRevert ==
   /\ RevertHead
   /\ idx' = IF res' = "ok" THEN RevI(idx, NBlocks - 1) ELSE idx
+  /\ IF res' = "ok"
+     THEN LET H == NBlocks - 1
+              F == FCur(IF FilterReorgInBatch THEN H ELSE H - 1) IN
+          /\ fcov' = F.cov \ {F.next - 1} /\ fnext' = F.next - 1 /\ hot' = TRUE
+     ELSE UNCHANGED <<hot, fcov, fnext>>
+
+(* a new process on the same database: the in-memory filter is gone until its next first use *)
+RRestart(graceful) ==
+  /\ Restart(graceful)
+  /\ hot' = FALSE /\ fcov' = {} /\ fnext' = 0
+  /\ UNCHANGED idx
 
 (* exhaustive alphabet: bounded diffs, every sequence of at most MaxTxs distinct fresh transactions *)
 RECURSIVE TxSeqs(_)
@@ -89,6 +122,7 @@ TxSeqs(k) == IF k = 0 THEN {<<>>}
 RNext ==
   \/ \E d \in BoundedDiffs, ver \in Vers, txs \in TxSeqs(MaxTxs) : RApply(d, ver, txs)
   \/ RRevert
+  \/ RRestart(TRUE)          \* graceful or not makes no difference to the model; the replayer gets both
 RSpec == RInit /\ [][RNext]_rvars
 
 --------------------------------------------------------------------------
@@ -97,6 +131,14 @@ ReplayI(k) == IF k = 0 THEN InitI ELSE UpdI(ReplayI(k - 1), chain, k - 1)
 
 (* C04: exact undo / fork convergence for the block-level index families *)
 IdxCanon == failed = "no" => idx = ReplayI(NBlocks)
+
+(* C04: a restart, wherever it occurs, changes nothing of the database *)
+RRestartIsNoOp == [][act'.name = "Restart" => UNCHANGED <<chain, truth, roots, ldb, ndb, cdb, failed, idx>>]_rvars
+
+(* C04: "same answers from every event query": whenever the process has a running event filter it
+   holds the bloom bits of exactly the blocks of the current chain (a filtered event query only
+   looks into blocks the filter admits), whatever was stored, reverted or restarted before *)
+FilterCoversChain == (hot /\ failed = "no") => (fcov = 0..(NBlocks - 1) /\ fnext = NBlocks)
 
 (* C04: "same answers from every query": lookups see exactly the current chain *)
 IdxSound ==
